@@ -13,6 +13,24 @@ STUB_SETS = {
 DEFAULT_VARIANT = [dict(name="default", env={}, target="kani")]
 
 PROPS = {
+    "C19": dict(
+        modules=["c19"],
+        quick=dict(jobs=14, timeout_s=900, mem_gb=8),
+        thorough=dict(jobs=12, timeout_s=3600, mem_gb=16),
+        bounds="", outside="", explanation="", assumptions=[], claim="wip", note="wip",
+    ),
+    "C05": dict(
+        modules=["c05"],
+        quick=dict(jobs=14, timeout_s=900, mem_gb=8),
+        thorough=dict(jobs=12, timeout_s=3600, mem_gb=16),
+        bounds="", outside="", explanation="", assumptions=[], claim="wip", note="wip",
+    ),
+    "C01": dict(
+        modules=["c01"],
+        quick=dict(jobs=14, timeout_s=900, mem_gb=8),
+        thorough=dict(jobs=12, timeout_s=3600, mem_gb=16),
+        bounds="", outside="", explanation="", assumptions=[], claim="wip", note="wip",
+    ),
     "C03": dict(
         modules=["c03"],
         quick=dict(jobs=14, timeout_s=900, mem_gb=8),
